@@ -880,7 +880,9 @@ impl EdnsData {
     }
 
     pub fn get_cookie(&self) -> Option<(&[u8], Option<&[u8]>)> {
+        /* RFC7873: a client cookie is exactly 8 octets, anything shorter is not a cookie. */
         self.get_opt(&EDNS_COOKIE)
+            .filter(|opt| opt.data.len() >= 8)
             .map(|opt| (&opt.data[..8], opt.data.get(8..)))
     }
 
@@ -897,7 +899,8 @@ impl EdnsData {
     }
 
     pub fn get_extended_dns_error(&self) -> Option<(EdeCode, String)> {
-        self.get_opt(&EDNS_EDE).map(|opt| {
+        /* RFC8914: the INFO-CODE is two octets, anything shorter is not an extended error. */
+        self.get_opt(&EDNS_EDE).filter(|opt| opt.data.len() >= 2).map(|opt| {
             (
                 EdeCode(u16::from_be_bytes([opt.data[0], opt.data[1]])),
                 String::from_utf8_lossy(&opt.data[2..]).into_owned(),
